@@ -71,7 +71,10 @@ type Upstream struct {
 	sendBufferPayloadSize                           int
 	sendBufferDataPointsCount                       int
 
-	idAlias  uint32
+	idAlias uint32
+	// writeMu: see startDraining
+	writeMu sync.RWMutex
+
 	wireConn *wire.ClientConn
 	// connOutages is the connection's outage count at the moment this stream attached to wireConn (open or resume).
 	connOutages uint64
@@ -134,8 +137,27 @@ func (u *Upstream) stateWithoutLock() *UpstreamState {
 }
 
 // Closeは、アップストリームを閉じます。
+// startDraining switches the stream to draining while no WriteDataPoints call is between its draining check and the hand-over
+// of its points to the flush loop: every write that returns nil is then in the buffer before the drain's flush, and every later
+// write is refused. Writers that are stuck behind a blocked flush loop are not waited for beyond the caller's context.
+func (u *Upstream) startDraining(ctx context.Context) streamStatus {
+	switched := make(chan streamStatus, 1)
+	go func() {
+		u.writeMu.Lock()
+		defer u.writeMu.Unlock()
+		switched <- u.state.Swap(streamStatusDraining)
+	}()
+	select {
+	case before := <-switched:
+		return before
+	case <-ctx.Done():
+		// the goroutine above repeats the switch, harmlessly, once the stuck writers are gone
+		return u.state.Swap(streamStatusDraining)
+	}
+}
+
 func (u *Upstream) Close(ctx context.Context, opts ...UpstreamCloseOption) error {
-	beforeStatus := u.state.Swap(streamStatusDraining)
+	beforeStatus := u.startDraining(ctx)
 	if beforeStatus == streamStatusDraining {
 		return errors.New("already draining")
 	}
@@ -266,6 +288,9 @@ func (u *Upstream) WriteDataPoints(ctx context.Context, dataID *message.DataID, 
 	if u.isClosed() {
 		return errors.ErrStreamClosed
 	}
+	// shared with the other writers, exclusive with Close switching to draining (see startDraining)
+	u.writeMu.RLock()
+	defer u.writeMu.RUnlock()
 	if u.state.Is(streamStatusDraining) {
 		return errors.New("draining")
 	}
